@@ -29,13 +29,49 @@ Fixpoint strip_nul (b : list Z) : list Z :=
               end
   end.
 
-(* writer:  ddtype = "S" + str(len(val) + 1); val.encode()  -- the width counts
-   CODE POINTS, the payload is UTF-8 bytes, h5py truncates to the width *)
-Definition str_width (s : pystr) : Z := Z.of_nat (List.length s) + 1.
+(* writer:  val = val.encode(); ddtype = "S" + str(len(val) + 1)  -- the payload
+   is the UTF-8 encoding, the width counts its BYTES (plus one), so h5py's
+   truncation to the width never removes anything *)
+Definition str_width (s : pystr) : Z := Z.of_nat (List.length (utf8 s)) + 1.
 Definition str_stored (s : pystr) : list Z :=
-  strip_nul (firstn (S (List.length s)) (utf8 s)).
-(* reader: value.decode("latin-1") : one code point per byte *)
-Definition latin1 (b : list Z) : pystr := b.
+  strip_nul (firstn (S (List.length (utf8 s))) (utf8 s)).
+(* reader: value.decode("utf-8"), on UnicodeDecodeError value.decode("latin-1").
+   utf8_dec = python's strict UTF-8 decoder (shortest form only, no surrogates,
+   nothing above U+10FFFF); None = UnicodeDecodeError *)
+Definition cont (b : Z) : bool := (128 <=? b) && (b <? 192).
+Fixpoint utf8_dec (b : list Z) : option pystr :=
+  match b with
+  | [] => Some []
+  | b0 :: r =>
+      if b0 <? 128 then option_map (cons b0) (utf8_dec r)
+      else if b0 <? 194 then None
+      else if b0 <? 224 then
+        match r with
+        | b1 :: r1 =>
+            if cont b1 then option_map (cons ((b0 - 192) * 64 + (b1 - 128))) (utf8_dec r1) else None
+        | _ => None
+        end
+      else if b0 <? 240 then
+        match r with
+        | b1 :: b2 :: r2 =>
+            let c := (b0 - 224) * 4096 + (b1 - 128) * 64 + (b2 - 128) in
+            if cont b1 && cont b2 && (2048 <=? c) && negb ((55296 <=? c) && (c <? 57344))
+            then option_map (cons c) (utf8_dec r2) else None
+        | _ => None
+        end
+      else if b0 <? 245 then
+        match r with
+        | b1 :: b2 :: b3 :: r3 =>
+            let c := (b0 - 240) * 262144 + (b1 - 128) * 4096 + (b2 - 128) * 64 + (b3 - 128) in
+            if cont b1 && cont b2 && cont b3 && (65536 <=? c) && (c <? 1114112)
+            then option_map (cons c) (utf8_dec r3) else None
+        | _ => None
+        end
+      else None
+  end.
+Definition latin1 (b : list Z) : pystr := b.     (* one code point per byte *)
+Definition decode_str (b : list Z) : pystr :=
+  match utf8_dec b with Some s => s | None => latin1 b end.
 
 (* decimal str(int) / int(str) of python *)
 Definition zstr (z : Z) : string := NilZero.string_of_int (Z.to_int z).
@@ -100,17 +136,14 @@ Inductive h5 :=
 | HA (a : arr).                 (* numeric dataset *)
 
 (* dict2hdf5group: every non-dict value becomes one dataset; scalars and
-   strings get shape (1,); a value that cannot be written (None) makes the
-   loop `break`, i.e. the REMAINING items of that dict are silently dropped *)
+   strings get shape (1,); a value that cannot be written (None) is skipped
+   with a warning (`continue`), the other items of the dict are written *)
 Fixpoint dict2h5 (v : pv) : h5 :=
   match v with
-  | PD l =>
-      HG ((fix items (l : list (string * pv)) : list (string * h5) :=
-             match l with
-             | [] => []
-             | (k, PN) :: _ => []
-             | (k, x) :: r => (k, dict2h5 x) :: items r
-             end) l)
+  | PD l => HG (flat_map (fun kv => match snd kv with
+                                    | PN => []
+                                    | _ => [(fst kv, dict2h5 (snd kv))]
+                                    end) l)
   | PS s => HS (str_width s) (str_stored s)
   | PI dt z => HA (mkArr dt [1%nat] (DI [z]))
   | PF dt x => HA (mkArr dt [1%nat] (DF [x]))
@@ -141,7 +174,7 @@ Definition unwrap (a : arr) : rv :=
 Fixpoint h52dict (f : h5) : rv :=
   match f with
   | HG l => RD (sortk (map (fun kv => (fst kv, h52dict (snd kv))) l))
-  | HS w b => RS (latin1 b)
+  | HS w b => RS (decode_str b)
   | HA a => unwrap a
   end.
 
@@ -155,22 +188,18 @@ Fixpoint h5_sort (f : h5) : h5 :=
 
 (* "expected reading" of a python value: what hdf5group2dict returns for the
    datasets dict2hdf5group wrote (Proofs/C13StoreP.v: h52dict (dict2h5 v) = rd v
-   for None-free v) *)
+   for every v); None items are not in the file *)
 Fixpoint rd (v : pv) : rv :=
   match v with
-  | PD l => RD (sortk (map (fun kv => (fst kv, rd (snd kv))) l))
-  | PS s => RS (latin1 (str_stored s))
+  | PD l => RD (sortk (flat_map (fun kv => match snd kv with
+                                           | PN => []
+                                           | _ => [(fst kv, rd (snd kv))]
+                                           end) l))
+  | PS s => RS (decode_str (str_stored s))
   | PI dt z => RI z
   | PF dt x => RF x
   | PN => RD []
   | PA a => unwrap a
-  end.
-
-Fixpoint none_free (v : pv) : bool :=
-  match v with
-  | PD l => forallb (fun kv => none_free (snd kv)) l
-  | PN => false
-  | _ => true
   end.
 
 End Store.
